@@ -88,8 +88,8 @@ def r4(fx):
              got=ast.unparse(boost.test), want='boost_error')
     a = single(boost.body, 'statement in the boost block')
     b = pat.need(a, 'error = boost_error_level(version, error, segments, eci, is_sa=H_sa)', 'boost call', mode='stmt')
-    yield ob('error = boost_error_level(version, error, segments, eci, is_sa=sa_mode)', pat.slot(b['sa'], ['sa_mode', 'sa_info is not None'], 'is_sa')
-             if pat.simple(b['sa']) else nf.norm(b['sa']) == 'sa_info is not None', a, got=ast.unparse(a), want='is_sa=sa_mode')
+    yield ob('error = boost_error_level(version, error, segments, eci, is_sa=<Structured Append in use>)', nf.same_inlined(enc, b['sa'], 'sa_info is not None'),
+             a, got=ast.unparse(a), want='is_sa=(sa_info is not None)')
     calls = [c for c in src.calls_in(enc, 'boost_error_level')]
     yield ob('single boost site', len(calls) == 1, enc, got=len(calls), want=1)
     # measure: boost_error_level calls segments.bit_length_with_overhead(version, eci, is_sa=is_sa)
